@@ -47,7 +47,7 @@ def generate(r, tier):
     sc["mode"] = r.choice(["same", "same", "upgrade", "upgrade", "upgrade"])
     sc["prog2"] = kgen.evolve(r, prog, pair_bias=0.35) if sc["mode"] == "upgrade" else None
     sc["parser"] = 1 if (sc["prog2"] and not kgen.v2_ok(sc["prog2"])) else kgen.pick_parser(r, prog, 0.05)
-    sc["prefix"] = ops.gen_history(r, prog, r.randint(0, 12), weights={"read": 3, "save": 0, "load": 0, "restart": 2, "load_hand": 0}, sane=0.9)
+    sc["prefix"] = ops.gen_history(r, prog, r.randint(0, 12), weights={"read": 6, "edge": 14, "save": 0, "load": 0, "restart": 2, "load_hand": 0}, sane=0.9)
     tgt = sc["prog2"] or prog
     sc["used"] = ops.gen_history(r, tgt, r.randint(1, 6), weights={"read": 3, "save": 0, "load": 0, "restart": 0}, sane=0.9) if r.random() < 0.3 else []
     sc["edits"] = ops.gen_history(r, tgt, r.randint(0, 8), weights={"edge": 20, "read": 4, "save": 0, "load": 0, "restart": 0}, sane=0.85)
